@@ -3,7 +3,7 @@
      datasources.py  TelstateDataSource.__init__   the validation statements, run in SOURCE ORDER (gen_ds_validate_prog) over
                                                    the generated key / step sets; the tuple handed to the chunk store
                                                    (gen_ds_index_axes, np.s_[:] for an absent key, () without preselect)
-     __init__.py     katdal.open                    a list of files admits open_concat_keys only; other formats refuse the
+     __init__.py     katdal.open                    a list of files allows open_concat_keys only; other formats refuse the
                                                    keyword (TypeError); an RDB file hands preselect to both constructors
    MODEL of Python (trusted, tied by the correspondence against slice.indices / numpy / dask on every swept value):
      py_indices      slice(start, stop).indices(n) for a unit step; taking such a slice keeps max(hi - lo, 0) items
@@ -31,7 +31,7 @@ Definition val_ok (v : pval) : bool :=
 Definition key_ok (allowed : list string) (kv : string * pval) : bool := mem_string (fst kv) allowed.
 
 (* verdicts: 0 accepted | 1 IndexError (unknown key) | 2 IndexError (value not a unit-step slice)
-             | 3 TypeError (format without preselect) | 4 IndexError (key not admitted for a list of files) *)
+             | 3 TypeError (format without preselect) | 4 IndexError (key not allowed for a list of files) *)
 Definition ds_val_step (p : presel) (st : Z) (op : Z) : Z :=
   if negb (st =? 0) then st else
   match op with
